@@ -1069,6 +1069,162 @@ def _inline_local_closures(fn):
     return changed
 
 
+class _QuantifierNorm(ast.NodeTransformer):
+    """not any(not X for ..) -> all(X for ..);  not all(not X for ..) -> any(X for ..);  not not X -> X (in tests)"""
+
+    def visit_UnaryOp(self, n):
+        self.generic_visit(n)
+        if isinstance(n.op, ast.Not):
+            c = n.operand
+            if isinstance(c, ast.Call) and isinstance(c.func, ast.Name) and c.func.id in ("any", "all") and len(c.args) == 1 and not c.keywords \
+                    and isinstance(c.args[0], (ast.GeneratorExp, ast.ListComp)) and isinstance(c.args[0].elt, ast.UnaryOp) and isinstance(c.args[0].elt.op, ast.Not):
+                comp = c.args[0]
+                new = type(comp)(elt=comp.elt.operand, generators=comp.generators)
+                return ast.copy_location(ast.Call(func=ast.Name(id="all" if c.func.id == "any" else "any", ctx=ast.Load()), args=[new], keywords=[]), n)
+        return n
+
+
+def _propagate_single_use(stmts, fn_loads, fn_stores):
+    """x = E; <next statement whose header expression reads x once, and nothing else ever reads x>  ->  E substituted, 'x = E' dropped"""
+    out = []
+    i = 0
+    while i < len(stmts):
+        s = stmts[i]
+        for fld in ("body", "orelse", "finalbody"):
+            if isinstance(getattr(s, fld, None), list) and not isinstance(s, (ast.FunctionDef, ast.ClassDef)):
+                setattr(s, fld, _propagate_single_use(getattr(s, fld), fn_loads, fn_stores))
+        for hnd in getattr(s, "handlers", []) or []:
+            hnd.body = _propagate_single_use(hnd.body, fn_loads, fn_stores)
+        nxt = stmts[i + 1] if i + 1 < len(stmts) else None
+        if isinstance(s, ast.Assign) and len(s.targets) == 1 and isinstance(s.targets[0], ast.Name) and nxt is not None \
+                and fn_loads.get(s.targets[0].id) == 1 and fn_stores.get(s.targets[0].id) == 1 and not _has(s.value, (ast.Yield, ast.Await, ast.NamedExpr, ast.Lambda)):
+            x = s.targets[0].id
+            header = None
+            if isinstance(nxt, (ast.If, ast.While)):
+                header = ("test", nxt.test)
+            elif isinstance(nxt, ast.Return) and nxt.value is not None:
+                header = ("value", nxt.value)
+            elif isinstance(nxt, ast.Assign) and not any(isinstance(n, ast.Name) and n.id == x for t in nxt.targets for n in ast.walk(t)):
+                header = ("value", nxt.value)
+            if header is not None and sum(1 for n in ast.walk(header[1]) if isinstance(n, ast.Name) and n.id == x and isinstance(n.ctx, ast.Load)) == 1 \
+                    and not any(isinstance(c, (ast.ListComp, ast.SetComp, ast.DictComp, ast.GeneratorExp, ast.Lambda)) and any(isinstance(n, ast.Name) and n.id == x for n in ast.walk(c))
+                                for c in ast.walk(header[1])):
+                setattr(nxt, header[0], _Subst({x: s.value}).visit(header[1]))
+                i += 1
+                continue
+        out.append(s)
+        i += 1
+    return out
+
+
+def _propagate_pure_locals(fn):
+    """x = f'..{a}..' / arithmetic over names, x and the names it reads bound once in the function: reads of x become the expression"""
+    stores, loads = {}, {}
+    for n in ast.walk(fn):
+        if isinstance(n, ast.Name):
+            d = stores if isinstance(n.ctx, (ast.Store, ast.Del)) else loads
+            d[n.id] = d.get(n.id, 0) + 1
+    params = {a.arg for a in fn.args.args + fn.args.kwonlyargs}
+    cands = {}
+    for st in ast.walk(fn):
+        if isinstance(st, ast.Assign) and len(st.targets) == 1 and isinstance(st.targets[0], ast.Name) and isinstance(st.value, (ast.JoinedStr, ast.BinOp)):
+            x = st.targets[0].id
+            if stores.get(x) != 1 or x in params or _has(st.value, (ast.Call, ast.Await, ast.Yield, ast.NamedExpr, ast.Lambda, ast.Subscript)):
+                continue
+            free = {n.id for n in ast.walk(st.value) if isinstance(n, ast.Name)}
+            if all((stores.get(f, 0) == 1 and f not in params) or (f in params and stores.get(f, 0) == 0) for f in free):
+                cands[x] = st
+    if not cands:
+        return fn
+
+    class R(ast.NodeTransformer):
+        def visit_Name(self, n):
+            if isinstance(n.ctx, ast.Load) and n.id in cands:
+                return ast.copy_location(_clone(cands[n.id].value), n)
+            return n
+
+        def visit_Assign(self, a):
+            if any(a is st for st in cands.values()):
+                return ast.copy_location(ast.Pass(), a)
+            return self.generic_visit(a)
+    return R().visit(fn)
+
+
+def _nest_guard_continue(stmts, in_loop=False):
+    """inside a loop body:  if C: continue; REST   ->   if not C: REST     (same paths, one shape for the rules)"""
+    out = []
+    for i, s in enumerate(stmts):
+        loop = isinstance(s, (ast.For, ast.While))
+        for fld in ("body", "orelse", "finalbody"):
+            if isinstance(getattr(s, fld, None), list) and not isinstance(s, (ast.FunctionDef, ast.ClassDef)):
+                setattr(s, fld, _nest_guard_continue(getattr(s, fld), (loop and fld == "body") or (in_loop and not loop)))
+        for hnd in getattr(s, "handlers", []) or []:
+            hnd.body = _nest_guard_continue(hnd.body, in_loop)
+        if in_loop and isinstance(s, ast.If) and not s.orelse and len(s.body) == 1 and isinstance(s.body[0], ast.Continue) and i + 1 < len(stmts):
+            rest = _nest_guard_continue(stmts[i + 1:], in_loop)
+            t = s.test
+            neg = t.operand if isinstance(t, ast.UnaryOp) and isinstance(t.op, ast.Not) else ast.UnaryOp(op=ast.Not(), operand=t)
+            out.append(ast.copy_location(ast.If(test=neg, body=rest, orelse=[]), s))
+            return out
+        out.append(s)
+    return out
+
+
+def _desugar_extend(stmts):
+    """X.extend(E for v in IT if C)   ->   for v in IT: if C: X.append(E)"""
+    out = []
+    for s in stmts:
+        for fld in ("body", "orelse", "finalbody"):
+            if isinstance(getattr(s, fld, None), list) and not isinstance(s, (ast.FunctionDef, ast.ClassDef)):
+                setattr(s, fld, _desugar_extend(getattr(s, fld)))
+        for hnd in getattr(s, "handlers", []) or []:
+            hnd.body = _desugar_extend(hnd.body)
+        c = s.value if isinstance(s, ast.Expr) else None
+        if isinstance(c, ast.Call) and isinstance(c.func, ast.Attribute) and c.func.attr in ("extend", "update") and len(c.args) == 1 and not c.keywords \
+                and isinstance(c.args[0], (ast.GeneratorExp, ast.ListComp, ast.SetComp)) and _pure_arg(c.func.value) and not _has(c.args[0], (ast.NamedExpr, ast.Lambda)):
+            comp = c.args[0]
+            recv = norm_(c.func.value)
+            if not any(norm_(n) == recv for n in ast.walk(comp) if isinstance(n, (ast.Name, ast.Attribute))):
+                add = "append" if c.func.attr == "extend" else "add"
+                inner = [ast.copy_location(ast.Expr(value=ast.Call(func=ast.Attribute(value=_clone(c.func.value), attr=add, ctx=ast.Load()), args=[comp.elt], keywords=[])), s)]
+                for gen in reversed(comp.generators):
+                    for cond in reversed(gen.ifs):
+                        inner = [ast.copy_location(ast.If(test=cond, body=inner, orelse=[]), s)]
+                    inner = [ast.copy_location(ast.For(target=gen.target, iter=gen.iter, body=inner, orelse=[]), s)]
+                out.append(inner[0])
+                continue
+        out.append(s)
+    return out
+
+
+def _desugar_union_star(stmts):
+    """x = set().union(*(E for v in IT))   ->   x = set(); for v in IT: x = x.union(E)"""
+    out = []
+    for s in stmts:
+        for fld in ("body", "orelse", "finalbody"):
+            if isinstance(getattr(s, fld, None), list) and not isinstance(s, (ast.FunctionDef, ast.ClassDef)):
+                setattr(s, fld, _desugar_union_star(getattr(s, fld)))
+        for hnd in getattr(s, "handlers", []) or []:
+            hnd.body = _desugar_union_star(hnd.body)
+        v = s.value if isinstance(s, ast.Assign) and len(s.targets) == 1 and isinstance(s.targets[0], ast.Name) else None
+        if isinstance(v, ast.Call) and isinstance(v.func, ast.Attribute) and v.func.attr == "union" and isinstance(v.func.value, ast.Call) and norm_(v.func.value) == "set()" \
+                and len(v.args) == 1 and isinstance(v.args[0], ast.Starred) and isinstance(v.args[0].value, (ast.GeneratorExp, ast.ListComp)) and len(v.args[0].value.generators) == 1:
+            comp = v.args[0].value
+            g0 = comp.generators[0]
+            x = s.targets[0].id
+            if not any(isinstance(n, ast.Name) and n.id == x for n in ast.walk(comp)):
+                step = ast.copy_location(ast.Assign(targets=[ast.Name(id=x, ctx=ast.Store())],
+                                                    value=ast.Call(func=ast.Attribute(value=ast.Name(id=x, ctx=ast.Load()), attr="union", ctx=ast.Load()), args=[comp.elt], keywords=[])), s)
+                inner = [step]
+                for cond in reversed(g0.ifs):
+                    inner = [ast.copy_location(ast.If(test=cond, body=inner, orelse=[]), s)]
+                out.append(ast.copy_location(ast.Assign(targets=[ast.Name(id=x, ctx=ast.Store())], value=ast.Call(func=ast.Name(id="set", ctx=ast.Load()), args=[], keywords=[])), s))
+                out.append(ast.copy_location(ast.For(target=g0.target, iter=g0.iter, body=inner, orelse=[]), s))
+                continue
+        out.append(s)
+    return out
+
+
 def _propagate_option_flags(fn):
     """flag = <...>.options.<field>  (bound once)  ->  uses of flag replaced by the attribute chain."""
     stores = {}
@@ -1146,9 +1302,28 @@ def canonical_function(mod, fn, depth=3):
         new.inlined_helpers = sorted(set(getattr(base, "inlined_helpers", [])) | set(elog))
     before = ast.dump(new)
     new.body = _desugar_comprehension_loops(new.body)
+    _ld0, _st0 = {}, {}
+    for _n in ast.walk(new):
+        if isinstance(_n, ast.Name):
+            _d = _st0 if isinstance(_n.ctx, (ast.Store, ast.Del)) else _ld0
+            _d[_n.id] = _d.get(_n.id, 0) + 1
+    new.body = _propagate_single_use(new.body, _ld0, _st0)
+    new = _QuantifierNorm().visit(new)
     new.body = _desugar_any_all(new.body)
     new.body = _desugar_next_find(new.body)
     new.body = _desugar_iter_sentinel(new.body)
+    new.body = _desugar_union_star(new.body)
+    new.body = _desugar_extend(new.body)
+    new.body = _nest_guard_continue(new.body)
+    new = _QuantifierNorm().visit(new)
+    _ld, _st = {}, {}
+    for _n in ast.walk(new):
+        if isinstance(_n, ast.Name):
+            _d = _st if isinstance(_n.ctx, (ast.Store, ast.Del)) else _ld
+            _d[_n.id] = _d.get(_n.id, 0) + 1
+    new.body = _propagate_single_use(new.body, _ld, _st)
+    new = _QuantifierNorm().visit(new)
+    new = _propagate_pure_locals(new)
     new.body = _split_ifexp_calls(new.body)
     new = _propagate_option_flags(new)
     local_names = _assigned_names(new)
